@@ -481,6 +481,18 @@ fn main() {
     type B64 = f64::BaseElement;
     type B62 = f62::BaseElement;
     type B128 = f128::BaseElement;
+    if std::env::var("VERIF_STAGE").as_deref() == Ok("miri") {
+        // depth <= 3 exhaustively for one hasher (the tree builders cast leaf slices with from_raw_parts)
+        drive::<Blake3_256<B64>>(&run, "Blake3_256", 3, 1);
+        drive::<Rp64_256>(&run, "Rp64_256", 2, 1);
+        run.finish(Finish {
+            rule: "Miri: every position subset and order for trees of depth <= 3 (Blake3_256) and <= 2 (Rp64_256), one sampled larger tree each".into(),
+            assumptions: vec!["Miri without the aliasing model".into()],
+            exhaustive: true,
+            require: vec![],
+            extra: vec![],
+        });
+    }
     let ex = 4;
     let s = run.size(64, 6_000);
     drive::<Blake3_256<B64>>(&run, "Blake3_256", ex, s);
